@@ -70,7 +70,17 @@ let n_of_hex s =
             | Npos p -> Npos (if b = 1 then XI p else XO p))) bits) s;
   !n
 
-let string_of_coq_string (s : char list) = String.of_seq (List.to_seq s)
+let ascii_code (a : ascii) : int =
+  match a with Ascii (b0, b1, b2, b3, b4, b5, b6, b7) ->
+    let v b k = if b then 1 lsl k else 0 in
+    v b0 0 + v b1 1 + v b2 2 + v b3 3 + v b4 4 + v b5 5 + v b6 6 + v b7 7
+
+let string_of_coq_string (s : Model.string) : Stdlib.String.t =
+  let b = Buffer.create 16 in
+  let rec go (s : Model.string) = match s with
+    | EmptyString -> ()
+    | String (a, r) -> Buffer.add_char b (Stdlib.Char.chr (ascii_code a)); go r in
+  go s; Buffer.contents b
 
 let payload_to_string p = match p with
   | PNone -> "N"
